@@ -73,6 +73,7 @@ type step struct {
 	Status  int  `json:"status"`
 	Park    bool `json:"stay_in_cooldown,omitempty"`        // flows: leave the response parked in its cool-down while later steps run
 	Adv     int  `json:"advance_seconds,omitempty"`         // policy: clock advance before the response
+	AdvMs   int  `json:"advance_ms,omitempty"`              // policy: a further sub-second advance before the response
 	Early   bool `json:"answered_by_the_gateway,omitempty"` // dispatcher unit: the response is an early response of a fixed_response remedy
 	// dispatcher unit, with Early: the gateway's answer is that of a strategy-based throttling remedy whose share is
 	// used up (the "too many requests" answer built by the remedies' common code), with this status
@@ -236,6 +237,12 @@ func genPolicyCase() *rapid.Generator[tcase] {
 		advs := []int{0, 0, 0, 0, 0, 0, 0, 0, 0, 0, 0, 0, 0, 0, 0, 0, 1, 1, 1, 2, p.Initial, p.Initial, p.Initial * p.Mult, 15, 29, 30, 31, 32, 31 + cd, 31 + cd*p.Mult, 30 + cd, 200}
 		c := tcase{Policy: p, Seqs: genSeqs(t)}
 		c.Steps = genSteps(t, len(c.Seqs), p.Attempts, statuses, p.inCond, false, advs)
+		// answers do not arrive on whole seconds: one step in five is a further fraction of a second later
+		for i := range c.Steps {
+			if rapid.IntRange(0, 4).Draw(t, "sub-second") == 0 {
+				c.Steps[i].AdvMs = rapid.SampledFrom([]int{1, 100, 500, 500, 900, 999}).Draw(t, "ms")
+			}
+		}
 		return c
 	})
 }
@@ -270,8 +277,8 @@ func newJudge(r *ev.Recorder, c tcase) *judge {
 		if int64(c.Policy.Initial) > cd {
 			cd = int64(c.Policy.Initial)
 		}
-		j.S = newMachine(j.n, true, variantStatement, cd)
-		j.D = newMachine(j.n, true, variantPolicyIDEq, cd)
+		j.S = newMachine(j.n, true, variantStatement, cd*1000)
+		j.D = newMachine(j.n, true, variantPolicyIDEq, cd*1000)
 	}
 	return j
 }
@@ -766,9 +773,9 @@ func runPolicyOn(r *ev.Recorder, c tcase, dispatcher bool, ll *longLived) (bool,
 	now := int64(0)
 	for i, st := range c.Steps {
 		seq := c.Seqs[st.Seq]
-		if st.Adv > 0 {
-			clk.Advance(time.Duration(st.Adv) * time.Second)
-			now += int64(st.Adv)
+		if st.Adv > 0 || st.AdvMs > 0 {
+			clk.Advance(time.Duration(st.Adv)*time.Second + time.Duration(st.AdvMs)*time.Millisecond)
+			now += int64(st.Adv)*1000 + int64(st.AdvMs)
 			if e := settle(clk, g0); e != nil {
 				return j.nontriv, "", e
 			}
